@@ -58,7 +58,7 @@ impl<'tcx> Interp<'tcx> {
 
     pub fn read_ptr(&self, st: &State, p: &Ptr) -> Val {
         if p.frame == STATICS {
-            let tmp = State { frames: vec![FrameSt { locals: self.statics.clone(), vers: vec![], bdefs: vec![], origin: vec![], discr: vec![], callres: vec![] }], atoms: vec![], rng_count: 0, facts: Rc::new(Default::default()) };
+            let tmp = State { frames: vec![FrameSt { locals: self.statics.clone(), vers: vec![], bdefs: vec![], origin: vec![], discr: vec![], callres: vec![] }], atoms: Rc::new(vec![]), rng_count: 0, facts: Rc::new(Default::default()) };
             return tmp.read(&Ptr { frame: 0, local: p.local, proj: p.proj.clone() });
         }
         st.read(p)
